@@ -12,7 +12,7 @@ EV == Name("e")
 KC == Attr(Name("K"), "C")
 KD == Attr(Attr(Name("K"), "Inner"), "D")
 AM == Attr(Name("aux"), "M")
-Shapes == {"S1", "S2", "S3", "S4", "S5", "S6", "S7", "S9", "S10", "S11", "S12", "S13", "S14", "S15", "S16", "S17", "S18", "S19"}
+Shapes == {"S1", "S2", "S3", "S4", "S5", "S6", "S7", "S9", "S10", "S11", "S12", "S13", "S14", "S15", "S16", "S17", "S18", "S19", "S20", "S21", "S22"}
 ShapeTerm(sh) ==
     CASE sh = "S1"  -> Lam1("e", Meth(EV, "f", <<Name("v")>>))
       [] sh = "S2"  -> Lam1("e", Meth(EV, "f", <<Name("G")>>))
@@ -39,6 +39,13 @@ ShapeTerm(sh) ==
       \* a parameter-less called lambda before a bare use of the own parameter (named like a global)
       [] sh = "S18" -> Lam1("G", Tup(<<CallP(Lam(<<>>, IntC(3)), <<>>), Name("G"), Name("v")>>))
       [] sh = "S19" -> Lam1("G", Tup(<<CallP(Lam(<<>>, Attr(Name("G"), "pt")), <<>>), BinOp("+", Name("G"), Name("v"))>>))
+      \* a keyword-only parameter named like a global (it hides the global inside the called lambda; the call stays a call)
+      [] sh = "S20" -> Lam1("e", CallK(LamG("po0ko1va0kw0", 0, <<"j", "G">>, BinOp("+", Attr(Name("j"), "pt"), Name("G")), <<>>, <<Absent>>),
+                                       <<EV>>, <<"G">>, <<Name("v")>>))
+      \* a default value is evaluated in the ENCLOSING scope: lambda j, G=G: ... captures the global in the default only
+      [] sh = "S21" -> Lam1("e", CallP(T("lam", "", 1, <<"j", "G">>, <<BinOp("+", Attr(Name("j"), "pt"), Name("G")), Name("G")>>), <<EV>>))
+      \* the iterable of a comprehension is evaluated in the enclosing scope: [G.pt for G in e.f(G)]
+      [] sh = "S22" -> Lam1("e", Comp("list", "G", Attr(Name("G"), "pt"), Meth(EV, "f", <<Name("G")>>), <<>>))
       [] sh = "S14" -> Lam1("G", Tup(<<Comp("list", "G", Attr(Name("G"), "pt"), Attr(Name("G"), "jets"), <<>>),
                                       Name("G")>>))
       [] OTHER      -> Lam1("e", Comp("list", "j", BinOp("+", Attr(Name("j"), "pt"), Name("G")), Attr(EV, "jets"),
